@@ -17,8 +17,8 @@ CLAIMED = {
         "design_ref": "DESIGN.md §6 C02, Appendix A.1",
         "note": "Trusted: Coq kernel + VM; stdlib classical axioms via Flocq for the two float-valued "
                 "theorems; hand-written model validated by differential testing on generated histories; "
-                "hooks (virtual clock, verif::stat wrappers). Reads before the last write (qps_previous) and "
-                "the whole-array count are compared with the model only.",
+                "hooks (virtual clock, verif::stat wrappers). The whole-array count has its own theorem "
+                "(C02_count_exact) and Spec clause.",
         "technique": "Coq proof (induction over the write history with a ring/history invariant) + "
                      "model-vs-implementation correspondence evaluated by vm_compute",
     },
@@ -86,15 +86,15 @@ CLAIMED = {
                 "builds/exits/clock advances, a build with batch n while k entries are in flight is admitted iff "
                 "k + n <= T for every rule, a rejection is an Isolation block naming a rule whose bound is "
                 "exceeded and carrying k, and (batch >= 1) in-flight never exceeds any threshold. Hotspot "
-                "concurrency — on the hotspot model, for every concurrency rule with thresholds/overrides >= 1 and "
+                "concurrency — on the hotspot model, for every concurrency rule (any threshold and overrides, 0 included) and "
                 "every history (positional/keyed/negative-index/missing parameters), a build with value v is "
                 "admitted iff (open entries with v) + 1 <= T_v (override replaces T for that value only), a "
                 "rejection names the rule, and open entries per value never exceed T_v. Both predicates are "
                 "evaluated on implementation traces.",
         "design_ref": "DESIGN.md §6 C05",
         "note": "Trusted: as C01/C06. The hotspot entry counts as one regardless of batch (as the code and "
-                "upstream Sentinel do); a concurrency threshold or override of 0 is outside the statement "
-                "(first sight of a value always passes).",
+                "upstream Sentinel do); a threshold or override of 0 closes the value "
+                "(the first-sight pass was repaired by 9c8ac06).",
         "technique": "Coq proof (world/ghost invariant; counter = number of open entries per value) + correspondence by vm_compute",
     },
     "C07": {
@@ -142,8 +142,8 @@ CLAIMED = {
                 "implementation's own answers.",
         "design_ref": "DESIGN.md §6 C10, Appendix A.5",
         "note": "Trusted: Coq kernel + VM (axiom-free); rules abstracted to (id, resource, equality class, validity, "
-                "statistic class); HashSet nondeterminism handled by comparing sets under equality; the system "
-                "manager (global, keyed by metric type) is not exercised; admission decisions are covered by the "
+                "statistic class); rule sets are sets under rule equality (consistent Hash since fix 79596dd), every return value asserted; the system "
+                "manager is exercised as a fifth family (load-all, append, clear, get); admission decisions are covered by the "
                 "family properties, 'enforced' is observed as the controllers consulted for entries.",
         "technique": "Coq proof (refinement to a reference map, invariant over operation sequences) + correspondence by vm_compute",
     },
